@@ -83,9 +83,11 @@ UNIT = dict(
              annotations=[
                  ("E9", FINAL_OK, r"""
 \1proof {
-\1    let q = qview(old(ax).state.syscalls)[fd];
-\1    assert(available_content@ =~= q);
-\1    assert(qview(ax.state.syscalls) =~= qview(old(ax).state.syscalls).insert(fd, q.subrange(max_bytes as int, q.len() as int)));
+\1    // (stated over the entry state only, so that renamed or restructured locals do not matter)
+\1    let r = old(ax).state.regs.rdi;
+\1    let q = qview(old(ax).state.syscalls)[r];
+\1    let n = min_nat(old(ax).state.regs.rdx as int, q.len() as int);
+\1    assert(qview(ax.state.syscalls) =~= qview(old(ax).state.syscalls).insert(r, q.subrange(n, q.len() as int)));
 \1}
 \1\2Ok(HookResult::Handled)
 }""", 1),
@@ -96,9 +98,11 @@ UNIT = dict(
              annotations=[
                  ("E9", FINAL_OK, r"""
 \1proof {
-\1    let q = qview(old(ax).state.syscalls)[write_end];
-\1    assert(bytes@ =~= mem_range(old(ax).state.mem.bytes@, buf as int, count as int));
-\1    assert(qview(ax.state.syscalls) =~= qview(old(ax).state.syscalls).insert(write_end, q + bytes@));
+\1    let r = old(ax).state.syscalls.pipes_write_ends@[old(ax).state.regs.rdi];
+\1    let q = qview(old(ax).state.syscalls)[r];
+\1    let b = mem_range(old(ax).state.mem.bytes@, old(ax).state.regs.rsi as int, old(ax).state.regs.rdx as int);
+\1    assert(qview(ax.state.syscalls)[r] =~= q + b);
+\1    assert(qview(ax.state.syscalls) =~= qview(old(ax).state.syscalls).insert(r, q + b));
 \1}
 \1\2Ok(HookResult::Handled)
 }""", 1),
